@@ -416,6 +416,36 @@ fn conformance_part(ctx: &mut Ctx, tier: Tier) {
     part.exhaustive = true;
     t.into_part(ctx, part);
 
+    // centre ladder: the property says "every centre mu"; integer parts over six orders of magnitude and
+    // fractional parts at the ends and middle of [0, 1), both signs, every answer of the menu once
+    let mut ladder: Vec<(f64, f64, f64)> = vec![];
+    for k in [0.0f64, 1.0, 2.0, 127.0, 128.0, 255.0, 256.0, 2047.0, 4095.0, 12288.0, 32000.0] {
+        for frac in [0.0f64, f64::EPSILON, 0.25, 0.5, 0.75, 1.0 - f64::EPSILON] {
+            for sgn in [1.0f64, -1.0] {
+                for (n, sig) in [(512usize, sigma_min(512)), (512, 1.5), (1024, SIGMA_MAX)] {
+                    ladder.push((sgn * (k + frac), sig, sigma_min(n)));
+                }
+            }
+        }
+    }
+    let t = ladder
+        .par_iter()
+        .map(|&(mu, sigma, smin)| {
+            let mut t = Tally::default();
+            for a1 in &m_full {
+                let b1 = answer_bytes(mu, sigma, smin, *a1);
+                run_script(&mut t, mu, sigma, smin, &[b1]);
+            }
+            t
+        })
+        .reduce(Tally::default, reduce);
+    let mut part = Part::new(
+        "sampler_z_centre_ladder",
+        &format!("every answer of the menu ({}) as the first iteration, for mu = +-(k + f), k in {{0,1,2,127,128,255,256,2047,4095,12288,32000}}, f in {{0, 2^-52, 1/4, 1/2, 3/4, 1-2^-52}} (incl. -0.0) x sigma' in {{sigma_min, 1.5, sigma_max}} ({} cells): value and iteration count against the specification's SamplerZ on the same bytes", m_full.len(), ladder.len()),
+    );
+    part.exhaustive = true;
+    t.into_part(ctx, part);
+
     // long rejection runs: k rejected iterations (k up to 64, thorough 256) followed by one accepted
     let kmax = if tier.thorough() { 256 } else { 64 };
     let rejecting: Vec<Ans> = vec![Ans { z0: 0, hi_edge: true, b: 0, ber: 4 }, Ans { z0: 3, hi_edge: false, b: 1, ber: 3 }, Ans { z0: 18, hi_edge: false, b: 0, ber: 4 }];
